@@ -424,7 +424,8 @@ def run(ctx):
                                                      "after J + 1 + 2 m iterations unless the sd test stops earlier; the V shape of the evaluated costs is checked per input)",
         "auto angle in [0, 90] deg": "proved",
         "|dkz| L/2 < 1e-3 at the auto angle when some angle phase-matches": "proved_partial (same contract; fails for F4)",
-        "argmin / binary64": "modelled line by line for two vertices; NaN costs not modelled (C17)"}
+        "argmin / binary64": "modelled line by line for two vertices; NaN costs not modelled (C17); the binary64 instance refines the real instance "
+                             "wherever every operation is exact (C04_float_refines_real, via C04_nm_simulation)"}
     return finish(ctx, assumptions=["argmin 0.10 NelderMead/Executor are modelled for two vertices from their source; the model is validated bit-exactly each run, not proved equal",
                                     "the residual clauses are conditional on the simplex contract (convergence of a direct search is not a theorem; see Findings/C04_findings.v)",
                                     "NaN costs (panic path) are out of scope (C17)"])
